@@ -121,6 +121,20 @@ CHECKS["C11"] = dict(
          "WholeLimit only; CoupledClimateNetwork wrappers are not driven yet.",
     ref="6/C11")
 
+CHECKS["C19"] = dict(
+    technique="TLA+ protocol model (MpiCore/MpiProtocol) model-checked by TLC incl. liveness + TLC-enumerated behaviours replayed on the real utils/mpi.py under an in-process MPI stand-in + TLC trace validation of every master/worker event (Val_C19)",
+    text="MpiProtocol specifies the master/worker job protocol (argmin placement, per-worker FIFO channels, in-order collection, rounds per "
+         "component); TLC checks ResultsRight, NoException, QueueConsistent, CleanRound, Complete, deadlock freedom and termination over all "
+         "interleavings, and MC_Chunks checks that the chunk arithmetic partitions [0,N) for N<=64 and workers 2..N+2.  Every complete "
+         "behaviour with atomic worker steps is replayed on the real code (newman, n.s.i. newman, n.s.i. arenas betweenness; graphs with "
+         "several components; silence 0..3), further worker counts 2..N+2 run under lazy/eager/reverse/random schedules; TLC replays all "
+         "recorded events through the MpiCore next-state functions, requires a complete final state and the assembled vector equal to the "
+         "serial run.  Chunk kernels are called on every contiguous partition of small node ranges; the multiprocessing pool variant of "
+         "nsi_betweenness is compared once per run.",
+    note="mpi4py is replaced by an in-process stand-in (vlib/mpistandin.py): real MPI transport, process failure and timing are out of "
+         "scope; a worker's receive-compute-send is one scheduling step; tolerance 1e-4 absolute / 1e-5 relative.",
+    ref="6/C19")
+
 NOT_APPLICABLE = {
     "C20": "memory safety of compiled kernels is a property of concrete addresses, not of abstract state a TLA+ "
            "specification maintains; nothing binds a PlusCal transcription of index arithmetic to the compiled code "
